@@ -43,6 +43,27 @@ pub const WITNESSES: &[Witness] = &[
     Witness { prop: "C03", name: "append-result-start-does-not-depend-on-ownership", steps: &[("|01 02 03| open-bitstr 1 bytes drop 2 bytes close-bitstr |dd| swap bitstr-append open-bitstr offset", "Ok")], stack: Some("0") },
 ];
 
+/// witnesses judged by what they print: (property, name, source, expected captured output)
+pub const OUT_WITNESSES: &[(&str, &str, &str, &str)] = &[
+    ("C11", "dot-s-in-block-hides-outer-stack", "7 #( 8 .s #) drop", "8\n"),
+];
+
+fn run_out(src: &str, want: &str) -> Option<String> {
+    let mut xs = xs::boot_safe();
+    xs.intercept_output(true).unwrap();
+    xs.set_insn_limit(Some(50_000)).unwrap();
+    match guard(|| xs.eval(src)) {
+        Ok(Ok(())) => {}
+        Ok(Err(e)) => return Some(format!("`{}` failed: {}", src, xs::render_err(&e))),
+        Err(pm) => return Some(format!("`{}` panicked: {}", src, pm)),
+    }
+    let got = xs::take_stdout(&mut xs);
+    if got != want {
+        return Some(format!("`{}` printed {:?}, expected {:?}", src, got, want));
+    }
+    None
+}
+
 fn run_one(w: &Witness) -> Option<String> {
     let mut xs = xs::boot_safe();
     xs.intercept_output(true).unwrap();
@@ -114,6 +135,11 @@ pub fn run_for(prop: &str) -> Vec<(String, String)> {
             bad.push((w.name.to_string(), d));
         }
     }
+    for (_, name, src, want) in OUT_WITNESSES.iter().filter(|w| w.0 == prop) {
+        if let Some(d) = run_out(src, want) {
+            bad.push((name.to_string(), d));
+        }
+    }
     if prop == "C02" {
         if let Some(d) = c02_api() {
             bad.push(("reverse-local-and-foreach".to_string(), d));
@@ -123,5 +149,5 @@ pub fn run_for(prop: &str) -> Vec<(String, String)> {
 }
 
 pub fn count_for(prop: &str) -> usize {
-    WITNESSES.iter().filter(|w| w.prop == prop && !w.name.starts_with("placeholder")).count() + if prop == "C02" { 1 } else { 0 }
+    WITNESSES.iter().filter(|w| w.prop == prop && !w.name.starts_with("placeholder")).count() + OUT_WITNESSES.iter().filter(|w| w.0 == prop).count() + if prop == "C02" { 1 } else { 0 }
 }
